@@ -187,7 +187,7 @@ def check_cases(ctx, cases):
             continue
 
         rng = random.Random(case["seed"])
-        kwargs = objgen.gen_kwargs(rng, name)
+        kwargs = objgen.gen_kwargs(rng, name, lazy=True)
         twin_kwargs = copy.deepcopy(kwargs)
         try:
             o = objgen.build(name, kwargs)
@@ -195,6 +195,26 @@ def check_cases(ctx, cases):
         except (ValueError, TypeError) as e:
             ctx.count("generator-rejected")
             continue
+        # looking at an object never changes it: hash and equality are taken BEFORE anything else is
+        # called on it, then every read-only method is called, then they are taken again
+        try:
+            h_first = hash(o)
+        except TypeError:
+            h_first = "unhashable"
+        eq_first = o == twin
+        for meth in ("to_dict", "__repr__", "__str__", "swhid", "unique_key", "compute_hash", "hashes", "anonymize", "with_data", "check"):
+            fn = getattr(o, meth, None)
+            if fn is not None:
+                try:
+                    fn()
+                except Exception:
+                    pass
+        try:
+            h_after = hash(o)
+        except TypeError:
+            h_after = "unhashable"
+        if h_after != h_first or (o == twin) != eq_first:
+            ctx.fail(case, "calling read-only methods (dictionary form, repr, swhid, check, ...) changes the hash or the equality of the object", "changed-by-observation:" + name)
         before = observe(o)
         # two objects built from the same arguments are equal, with equal hashes
         if not (o == twin) or (before["hash"] != "unhashable" and before["hash"] != hash(twin)):
